@@ -134,8 +134,63 @@ class Prop:
                 if r.startswith('ERR'):
                     ctx.fail('emitted sentences are rejected by decode()', inp, 'a message', r, {'kind': 'accepted-msg'})
 
+        # 4. requests that cannot be served with a well-formed sentence (a talker that is not five capital letters, a
+        # channel that is not one character, separators inside them): refused, or else the output is held against
+        # the same conditions
+        bad_talkers = [b'', b'AIVD', b'AIVDMM', b'AIVDM,1', b'aivdm', b'AI*DM', b'AIVDM' * 12, b'\xc4IVDM', b'AIVD\n']
+        bad_chans = [b'', b'AB', b',', b'*', b'A,', b'\n', b'AAAAAAAAAAAAAAAAAAAAAAAAAAAAAAAAAAAAAAAAAAAAAAAAAAAAAAAAAAAAAAAAAAAAAAAA']
+        ops, meta = [], []
+        some = []
+        for cname in ('MessageType1', 'MessageType5', 'MessageType14'):
+            o = impl.step('frombits_cls %s %s' % (cname, gen.payload_bits(rng, cname)))
+            if not o.startswith('ERR'):
+                some.append((cname, o.split('|', 1)[1]))
+        for talker, chan in [(t, b'A') for t in bad_talkers] + [(b'AIVDM', c) for c in bad_chans] + [(b'', b'')]:
+            for L in (1, 59, 61, 130):
+                if len(talker) == 5 and len(chan) == 1:
+                    # the low-level helper only checks the lengths; what it does with five arbitrary characters is
+                    # not the encoder's contract (encode_msg / encode_dict refuse them, below)
+                    continue
+                pl = bytes(rng.choice(alphabet) for _ in range(L))
+                ops.append('nmea %s %s %s 0' % (pl.hex(), talker.hex() or '-', chan.hex() or '-'))
+                meta.append(('nmea', talker, chan, pl, 0))
+            for cname, kw in some:
+                ops.append('encode_msg %s %s %s %s' % (cname, talker.hex() or '-', chan.hex() or '-', kw))
+                meta.append(('encode_msg', talker, chan, None, cname))
+                t = gen.TYPE_OF[cname][0]
+                ops.append('encode_dict %s %s %s;type=i:%d' % (talker.hex() or '-', chan.hex() or '-', kw, t))
+                meta.append(('encode_dict', talker, chan, None, cname))
+        outs = ctx.corr(ops, impl.step, 'refused-requests', nontrivial=lambda l, o: o.startswith('ERR'))
+        for (cmd, talker, chan, pl, extra), o, op in zip(meta, outs, ops):
+            ctx.count('refused:' + cmd)
+            if o.startswith('ERR'):
+                continue
+            inp = {'cmd': cmd, 'op': op, 'talker': talker.decode('latin-1'), 'chan': chan.decode('latin-1')}
+            try:
+                sents = [bytes.fromhex(x) for x in o.split(',') if x and x != '-']
+                payload = pl if pl is not None else b''.join(x.split(b',')[5] for x in sents)
+                fill = extra if pl is not None else int(sents[-1].split(b',')[6][:1])
+            except (IndexError, ValueError):
+                ctx.fail('encoder output not well-formed: not the seven NMEA fields', inp, 'refusal or well-formed sentences',
+                         o[:200], {'kind': 'wellformed-refused'})
+                continue
+            check_sentences(ctx, inp, sents, talker, payload, fill, {'kind': 'wellformed-refused'})
+
     def replay(self, ctx, payload):
         inp = payload['failure']['input']
+        if inp.get('op'):
+            o = impl.step(inp['op'])
+            print('observed:', o[:300])
+            if o.startswith('ERR'):
+                return True
+            sents = [bytes.fromhex(x) for x in o.split(',') if x and x != '-']
+            try:
+                payload = b''.join(x.split(b',')[5] for x in sents)
+                fill = int(sents[-1].split(b',')[6][:1])
+            except (IndexError, ValueError):
+                return False
+            check_sentences(ctx, inp, sents, inp['talker'].encode('latin-1'), payload, fill, {})
+            return not ctx.failures
         if inp['cmd'] == 'nmea':
             p, talker = bytes.fromhex(inp['payload']), inp['talker'].encode()
             o = impl.step('nmea %s %s %s %d' % (inp['payload'], talker.hex(), inp['chan'].encode().hex(), inp['fill']))
